@@ -300,8 +300,11 @@ def r2_functions(program, folder, rep, eths):
                    "chip's offset - are never listed" % (
                        type(early[0]).__name__.lower() if early else "",
                        early[0].lineno if early else 0))
-    rep.check(eths is not None and set(trip) == set(ETH) and
-              set(trip) == eths and len(trip) == 3, "C19-R2",
+    # (eths is None when C19-R1 could not read the table: no verdict from
+    # the table there, the positions are still compared with the tiling)
+    rep.check(set(trip) == set(ETH) and
+              (eths is None or set(trip) == eths) and len(trip) == 3,
+              "C19-R2",
               inst, "Ethernet positions per 12x12 cell %s equal the ones the "
               "offset table points to" % (sorted(trip),),
               construct="eth triple %s" % (sorted(trip),), node=fn)
